@@ -494,7 +494,7 @@ Print Assumptions C01_lost_name_check_refuted.
 (* 9. storage READ faults inside the model (Engine/OpsR.v): the four operations with, at every
    storage read, the error handler the Go code has at that call site.  Run/RunC01.v evaluates these
    programs on every history the harness ran with a read fault injected into the real driver. *)
-From Helm Require Import Engine.OpsR Engine.OpsRProofs Engine.OpsRLedger Engine.OpsRClean Engine.OpsRWrite.
+From Helm Require Import Engine.OpsR Engine.OpsRProofs Engine.OpsRLedger Engine.OpsRClean Engine.OpsRWrite Engine.OpsRHistory Engine.OpsRHistoryProofs.
 From Helm Require Engine.Skeleton Engine.SkeletonModel Engine.SkeletonRead Engine.SkeletonExpected Gen.ActionSkeleton.
 
 (* without a read fault they ARE the operations every theorem above speaks about: the same run
@@ -612,6 +612,17 @@ Theorem C01_read_or_crash_history_ledger :
     Forall ledger_ok (run_opsF K kh dresp rn ns h l k).
 Proof. exact run_opsF_ledger. Qed.
 Print Assumptions C01_read_or_crash_history_ledger.
+
+
+(* ... and along every history of THE EVALUATOR OF THE CORRESPONDENCE RUN (Engine/OpsRHistory.v, used by Run/RunC01.v
+   on the histories the harness ran through the real actions): operations with crash points, out-of-band edits of the
+   cluster, operations with a failing storage read, over the object-store cluster *)
+Theorem C01_read_fault_history_ledger :
+  forall (rn ns : string) (h : list rstep) (w : world),
+    Forall step_faults_ok h -> ledger_ok (w_led w) -> h2_historyR rn ns h w ->
+    Forall (fun x => ledger_ok (w_led (fst (fst x)))) (run_historyR rn ns h w).
+Proof. exact historyR_ledger. Qed.
+Print Assumptions C01_read_fault_history_ledger.
 
 Example C01_read_fault_upgrade_instance :
   map (fun n => run_store_read_fault n SeqRead.ra_op (SeqRead.world_of SeqRead.ra_prefix)) [0; 1; 2; 3]
